@@ -123,14 +123,17 @@ func VerifC05ResetDE() {
 	c05CheckQueues(e, st)
 }
 
-// c05Group stores group 1 with one member per address (member id = address index + 1) and symbolic
-// activity flags; returns the flags.
-func c05Group(e *c05Env, nAddr int, threshold uint64) []bool {
+// c05Group stores group 1 with one member per address (member id = address index + 1); the activity flags
+// of the last nSym members are symbolic, the others are active. Returns the flags.
+func c05Group(e *c05Env, nAddr int, threshold uint64, nSym int) []bool {
 	active := make([]bool, nAddr)
 	e.k.SetGroup(e.ctx, types.NewGroup(1, uint64(nAddr), threshold, c05BadPoint(), types.GROUP_STATUS_ACTIVE, 1, c05Owner))
 	e.k.SetGroupCount(e.ctx, 1)
 	for a := 0; a < nAddr; a++ {
-		active[a] = vs.Bool("is_active")
+		active[a] = true
+		if a >= nAddr-nSym {
+			active[a] = vs.Bool("is_active")
+		}
 		e.k.SetMember(e.ctx, types.Member{
 			ID:          tss.MemberID(a + 1),
 			GroupID:     1,
@@ -150,7 +153,7 @@ func VerifC05Available() {
 	nAddr := vs.Param("addrs")
 	wins := c05Wins(nAddr, -1, 0, vs.Param("window"))
 	st := c05BuildQueues(e, nAddr, wins, c05BytesDE)
-	active := c05Group(e, nAddr, 1)
+	active := c05Group(e, nAddr, 1, nAddr)
 
 	got := e.k.GetAvailableMembers(e.ctx, 1)
 
